@@ -154,6 +154,62 @@ def suite_transformed(ctx, res, n, extra=()):
                         {"site": "transformed-range", "transform": t})
 
 
+def suite_compiled(ctx, res, n):
+    """the last step: what `to_ufo_paint` hands to the COLR compiler.  For each affine the paint returned by paint.transformed is compiled into a real
+    COLR table (fontTools), read back, and the affine the compiled paint denotes (fontTools' own Paint.getTransform) is compared with the affine asked
+    for: a specialised form is only chosen when its operands are exactly representable, so nothing may be lost on the way to the binary."""
+    import io as _io
+    from fontTools.colorLib import builder
+    from fontTools import ttLib
+    from nanoemoji.paint import transformed, PaintSolid
+    from nanoemoji.colors import Color
+    from picosvg.svg_transform import Affine2D
+    from harness.props import C13
+
+    black = Color(0, 0, 0, 1.0)
+    cases = []
+    while len(cases) < n:
+        t = gen_affine(ctx.rng)
+        if all(abs(v) < 32000 for v in t):
+            cases.append(t)
+    todo = []
+    for t in cases:
+        try:
+            p = transformed(Affine2D(*[float(v) for v in t]), PaintSolid(black))
+        except Exception:  # noqa
+            continue
+        kind = type(p).__name__
+        if kind == "PaintSolid":
+            continue
+        todo.append((t, p, kind))
+    # one font per batch: glyph order A, B, C ... reused as base glyphs
+    for k0 in range(0, len(todo), 3):
+        chunk = todo[k0:k0 + 3]
+        font = C13.build_base_font()
+        try:
+            glyphs = {"ABC"[i]: p.to_ufo_paint([black]) for i, (_, p, _) in enumerate(chunk)}
+            font["COLR"] = builder.buildCOLR(glyphs, version=1)
+            font["CPAL"] = builder.buildCPAL([[(0, 0, 0, 1.0)]])
+            buf = _io.BytesIO()
+            font.save(buf)
+            back = ttLib.TTFont(_io.BytesIO(buf.getvalue()), lazy=False)
+        except Exception as e:  # noqa  (a value that does not fit its field: reported by transformed-range on the model side)
+            res.stat("compiled:compile-error:" + type(e).__name__)
+            continue
+        recs = {r.BaseGlyph: r.Paint for r in back["COLR"].table.BaseGlyphList.BaseGlyphPaintRecord}
+        for i, (t, p, kind) in enumerate(chunk):
+            op = recs["ABC"[i]]
+            got = tuple(op.getTransform())
+            res.count(key=("compiled", stable_hash([fr(v) for v in t])), nontrivial=True)
+            res.stat("compiled:" + kind)
+            # PaintTransform stores 16.16 numbers; the specialised forms are chosen only for exactly representable operands
+            tol = 2.0 ** -16 if kind == "PaintTransform" else 1e-6 * (1 + max(abs(float(v)) for v in t))
+            if any(abs(a - float(b)) > tol for a, b in zip(got, t)):
+                res.add_cex(f"the compiled {kind} denotes {tuple(round(v, 6) for v in got)}, not the affine it was asked to encode",
+                            {"call": "transformed(...).to_ufo_paint -> COLR", "transform": [fr(v) for v in t], "compiled": [float(v) for v in got],
+                             "ufo_paint": repr(p.to_ufo_paint([black]))[:300]}, {"site": "compiled-denotes", "transform": [fr(v) for v in t]})
+
+
 def gen_float_affine(rng):
     g = lambda lo, hi, den: rng.randint(lo * den, hi * den) / den
     kind = rng.choice(["sim", "diag", "general", "general", "flip"])
@@ -401,11 +457,13 @@ def run(ctx, res):
     suite_linear(ctx, res, ctx.budget(800, 16000))
     suite_radial(ctx, res, ctx.budget(500, 10000))
     suite_reuse_fallback(ctx, res, ctx.budget(8, 120))
+    suite_compiled(ctx, res, ctx.budget(240, 3000))
 
 
 def search(ctx, res, broken):
     # larger budget with a fresh stream
     suite_transformed(ctx, res, 40000)
+    suite_compiled(ctx, res, 1500)
     suite_linear(ctx, res, 5000)
     suite_radial(ctx, res, 3000)
     suite_decompose(ctx, res, 3000)
